@@ -303,8 +303,33 @@ def d4_release_notify(facts, rep):
         rep.ob('D4', 'K4', fn, 'leaving a nested arena releases the slot and then notifies the exit monitor', ok,
                'a thread waiting for a free slot in task_arena::execute is not woken when a slot is released')
     for fn in facts.get(R1 + 'task_arena_impl::execute'):
-        nt = calls_named(fn, ('notify_one',))
-        rep.ob('D4', 'K4', fn, 'execute() passes the wake-up on when it did not enter the arena', bool(nt), 'notify_one() removed')
+        # A thread that registered on the exit monitor may have been chosen by a leaving thread's notify_one() (from
+        # prepare_wait on it is in the wait set).  If it leaves without having occupied a slot it must pass the wake-up on,
+        # unconditionally: every path from prepare_wait to the function exit passes notify_one/notify_all, or an edge on which
+        # occupy_free_slot is known to have succeeded (then leaving the nested arena notifies, see above).
+        from engine.rules import vars_initialised_from, is_var
+        defs = Defs(fn)
+        pw = calls_named(fn, ('prepare_wait',))
+        occ = [c[1] for c in calls_named(fn, ('occupy_free_slot',))]
+        slot_vars = vars_initialised_from(fn, occ)
+        if not pw or not slot_vars:
+            raise AnalysisBroken('task_arena_impl::execute: prepare_wait / occupy_free_slot result not found')
+
+        def occupied(a, truth):
+            n = fn.n(fn.strip(a))
+            if n.get('k') != 'binop' or n['op'] not in ('==', '!='):
+                return False
+            sides = [fn.n(fn.strip(n['l'])), fn.n(fn.strip(n['r']))]
+            has_slot = any(x.get('k') == 'var' and x.get('v') in slot_vars for x in sides)
+            has_out = any(x.get('n') == 'out_of_arena' for x in sides)
+            return has_slot and has_out and ((n['op'] == '!=') == truth)
+        occ_edges = edges_where(fn, occupied)
+        for pos, s, node, d in pw:
+            ok, wit = every_path_passes(fn, pos, lambda p, e: is_call_to(fn, e, shortnames=('notify_one', 'notify_all')),
+                                        stop_edge=lambda b, si: (b, si) in occ_edges)
+            rep.ob('D4', 'K4', fn, 'execute() passes the wake-up on whenever it leaves the slot wait without a slot', ok,
+                   'a registered waiter can leave without a slot and without notify_one(): a wake-up it absorbed is lost and the next '
+                   'waiter sleeps although a slot is free: ' + wit, ln=node['ln'])
     rep.floor('D4', 10, 'release/notify sites')
 
 
